@@ -138,6 +138,39 @@ fn check_seq(rep: &mut Report, model: &mut Model, ops: &[Op], layers_cfg: &Cfg) 
             }
         }
     }
+    // (0) the refusals the property lists, decided from the calls and their answers alone: a call on
+    // an id that is not open (never issued, or ended), a name already used, a name longer than the
+    // limit, finalization while a file is open -- each must answer an error.
+    {
+        let mut open: Vec<u64> = vec![];
+        let mut names: Vec<String> = vec![];
+        let mut finalized = false;
+        for (i, (o, r)) in ops.iter().zip(&b.results).enumerate() {
+            let accepted = r == "ok" || r.starts_with("id:");
+            let must_refuse: Option<&str> = match o {
+                _ if finalized => None, // covered by the after-finalize oracle above
+                Op::Start(n) | Op::Add { name: n, .. } if names.contains(n) => Some("a name already used"),
+                Op::Start(n) | Op::Add { name: n, .. } if n.len() > 65536 => Some("a name longer than 65536 bytes"),
+                Op::Append { id, .. } | Op::End(id) if !open.contains(id) => Some("an id that is not open"),
+                Op::Finalize if !open.is_empty() => Some("finalization while a file is open"),
+                _ => None,
+            };
+            if let (Some(why), true) = (must_refuse, accepted) {
+                rep.violation("oracle", "C09/must-refuse", json!({"what":"invalid-call-accepted","why":why}),
+                    &format!("call #{i} ({}) is accepted although it is made on {why}", o.to_json()["op"].as_str().unwrap_or("?")), case());
+                return false;
+            }
+            match o {
+                Op::Start(n) => if let Some(id) = r.strip_prefix("id:") { open.push(id.parse().unwrap_or(u64::MAX)); names.push(n.clone()); },
+                Op::End(id) if r == "ok" => open.retain(|x| x != id),
+                // add = start + append + end: when the append part fails the file stays started (ids are
+                // issued in sequence: its id is the number of files started so far)
+                Op::Add { name, .. } if r == "ok" || r == "short" || r == "eof" => { if r != "ok" { open.push(names.len() as u64); } names.push(name.clone()) },
+                Op::Finalize if r == "ok" => finalized = true,
+                _ => {}
+            }
+        }
+    }
     // (i) erase the pre-write refusals: same results for the rest and the same archive bytes
     if shorts == 0 {
         let kept: Vec<Op> = ops.iter().zip(&b.results).filter(|(_, r)| !is_prewrite_refusal(r)).map(|(o, _)| o.clone()).collect();
